@@ -1161,8 +1161,100 @@ impl C17 {
         (log, res, class.to_string(), tb)
     }
 
+    /// family `race` (signal level): one thread polls `signal::Once::recv` for the FIRST time while another thread calls
+    /// `send()`; the relative offset is swept with a spin of pseudo-random length on both sides. Whatever the
+    /// interleaving, once `send()` has returned the next poll of the receiver must be Ready — otherwise the waiter of a
+    /// cancellation (every `ctx.canceled()`, every scope termination) would sleep for ever.
+    fn exec_race(&mut self, op: &Value, out: &mut Out) -> (Value, Value) {
+        use std::sync::{atomic::{AtomicBool, AtomicUsize, Ordering}, Arc};
+        use std::task::{Context, Poll, Wake, Waker};
+        use zksync_concurrency::signal;
+        struct NoopWake;
+        impl Wake for NoopWake {
+            fn wake(self: Arc<Self>) {}
+        }
+        fn next(x: &mut u64) -> u64 {
+            *x ^= *x << 13;
+            *x ^= *x >> 7;
+            *x ^= *x << 17;
+            *x
+        }
+        let iters = op["iters"].as_u64().unwrap_or(100_000) as usize;
+        let seed = op["seed"].as_u64().unwrap_or(1) | 1;
+        let rt = tokio::runtime::Builder::new_multi_thread().worker_threads(1).enable_all().build().unwrap();
+        let _g = rt.enter();
+        let ctx = ctx::test_root(&ctx::RealClock);
+        let waker = Waker::from(Arc::new(NoopWake));
+        let turn = Arc::new(AtomicUsize::new(0));
+        let cell: Arc<std::sync::Mutex<Option<Arc<signal::Once>>>> = Arc::default();
+        let stop = Arc::new(AtomicBool::new(false));
+        let sender = {
+            let (turn, cell, stop) = (turn.clone(), cell.clone(), stop.clone());
+            std::thread::spawn(move || {
+                let mut x = 0x9E3779B97F4A7C15u64 ^ seed;
+                for i in 0..iters {
+                    let once = loop {
+                        if stop.load(Ordering::Relaxed) {
+                            return;
+                        }
+                        if turn.load(Ordering::Acquire) == 2 * i + 1 {
+                            break cell.lock().unwrap().take().unwrap();
+                        }
+                        std::hint::spin_loop();
+                    };
+                    for _ in 0..(next(&mut x) % 64) {
+                        std::hint::spin_loop();
+                    }
+                    once.send();
+                    turn.store(2 * i + 2, Ordering::Release);
+                }
+            })
+        };
+        let mut x = 0xD1B54A32D192ED03u64 ^ (seed << 7);
+        let (mut lost, mut flag_unset, mut first_pending) = (None, None, 0u64);
+        for i in 0..iters {
+            let once = Arc::new(signal::Once::new());
+            *cell.lock().unwrap() = Some(once.clone());
+            let mut fut = std::pin::pin!(once.recv(&ctx));
+            let mut cx = Context::from_waker(&waker);
+            turn.store(2 * i + 1, Ordering::Release);
+            for _ in 0..(next(&mut x) % 64) {
+                std::hint::spin_loop();
+            }
+            let first = fut.as_mut().poll(&mut cx);
+            while turn.load(Ordering::Acquire) != 2 * i + 2 {
+                std::hint::spin_loop();
+            }
+            if !once.try_recv() {
+                flag_unset = Some(i);
+                break;
+            }
+            if first.is_pending() {
+                first_pending += 1;
+                if let Poll::Pending = fut.as_mut().poll(&mut cx) {
+                    lost = Some(i);
+                    break;
+                }
+            }
+        }
+        stop.store(true, Ordering::Relaxed);
+        let _ = sender.join();
+        out.count("fam=race");
+        if let Some(i) = lost {
+            out.oracle_fail("signal-lost-wakeup", &format!("iteration {i}: send() has returned, but the receiver whose first poll raced with it is still Pending and will never be woken"), op.clone());
+        }
+        if let Some(i) = flag_unset {
+            out.oracle_fail("signal-flag-unset", &format!("iteration {i}: try_recv() is false after send() returned"), op.clone());
+        }
+        (op.clone(), json!({"accepted": true, "complete": true, "class": "race", "lost": lost.is_some() || flag_unset.is_some(),
+                            "_iters": iters, "_first_poll_pending": first_pending}))
+    }
+
     /// one fresh execution of the program of `op`; returns the op line (with the log) and the observation
     fn exec_fresh(&mut self, op: &Value, out: &mut Out) -> (Value, Value) {
+        if op["op"].as_str() == Some("race") {
+            return self.exec_race(op, out);
+        }
         let spec: ScopeSpec = match serde_json::from_value(op["prog"].clone()) {
             Ok(s) => s,
             Err(e) => return (op.clone(), json!({"bad_op": e.to_string()})),
@@ -1225,6 +1317,10 @@ impl Prop for C17 {
     fn gen(&mut self, opts: &Opts) -> Vec<Value> {
         let mut rng = opts.rng();
         let mut ops = vec![];
+        // signal-level race family first: 4 (quick) / 40 (thorough) sweeps of 150 000 first-poll-vs-send races
+        for k in 0..(if opts.thorough { 40u64 } else { 4 }) {
+            ops.push(json!({"reset": true, "op": "race", "iters": 150_000, "seed": rng.gen::<u32>() as u64 + k}));
+        }
         for i in 0..opts.n {
             let mut g = Gen { rng: &mut rng, tid: 0, sid: 0, cid: 0, budget: 11 };
             let (fam, spec) = if i % 2 == 0 {
